@@ -254,5 +254,37 @@ Definition cpp_match (clear_on_pop : bool) (fuel : nat) (p : list instr) (w : li
         end
   end.
 
-(** enough for every phase of the fixed matcher: every pc is popped at most once *)
+(** enough for every phase of the matcher when [Pop] keeps the flag: every pc is popped
+    at most once *)
 Definition enough_fuel (p : list instr) : nat := S (S (length p)).
+
+(** fuel per phase used for the matcher as shipped ([Pop] clears the flag): a pc can be
+    popped once per epsilon-path, so there is no bound in terms of the program size *)
+Definition shipped_fuel : nat := 200 * 100.
+
+(** ** epsilon-cycles: [Jump], [Split] and (at the end of the input) [End] do not consume *)
+Definition eps_succ (p : list instr) (pc : nat) : list nat :=
+  match nth_error p pc with
+  | Some (IJump t) => [t]
+  | Some (ISplit a b) => [a; b]
+  | Some IEnd => [S pc]
+  | _ => []
+  end.
+
+Fixpoint eps_reach (p : list instr) (fuel : nat) (frontier seen : list nat) : list nat :=
+  match fuel with
+  | O => seen
+  | S fuel' =>
+      let next := flat_map (eps_succ p) frontier in
+      let fresh := add_all next [] in
+      let fresh := filter (fun x => negb (mem_nat x seen)) fresh in
+      match fresh with
+      | [] => seen
+      | _ => eps_reach p fuel' fresh (seen ++ fresh)
+      end
+  end.
+
+(** some pc reaches itself by one or more epsilon-steps *)
+Definition eps_cyclic (p : list instr) : bool :=
+  existsb (fun pc => mem_nat pc (eps_reach p (S (length p)) [pc] []))
+          (seq 0 (length p)).
